@@ -29,6 +29,14 @@ Two families:
   fork_inherited_session_<pool> - the same scenarios with F1 asserted strictly, inherited session included
                             (counterexamples are classified `fork-inside-open-session-...` in checks/c36.py).
   single_fault_<pool>     - fork at the f-th getpid() call combined with one failing DB-API call (symbolic position).
+Every family also has a symbolic `d`: 0 = never, i = `db.disconnect()` is called after session i (i = 4: after the
+final session) by whichever process is running then; F1/F2 cover its calls (Pool.disconnect must close only the
+caller's own connection and must keep `forked_connections`).
+  fork_then_disconnect_first_<pool> - second KNOWN REGION asserted strictly: a disconnect() made by the child before
+                            the child ever connected (fork while idle or inside a session, no child session yet).
+                            `Pool.disconnect` has no pid check, `pool.con` is still the parent's object and is closed
+                            (classified `child-disconnect-before-first-connect-...` in checks/c36.py).  The other
+                            families exclude exactly the calls of such a disconnect step.
 The symbolic numbers are handled as in C19 (fakedb.untraced: pony never sees them; the one comparison per call is
 made under CrossHair's tracer, which forks the path there).
 
@@ -89,7 +97,7 @@ def setup():
     for k in KIND:
         for mode in ('getpid', 'dbapi'):
             for sh in range(5):
-                assert _scenario(k, mode, 0, sh, (sh + 1) % 5, sh, False, 0), (k, mode, sh, LAST)
+                assert _scenario(k, mode, 0, sh, (sh + 1) % 5, sh, False, 0, sh), (k, mode, sh, LAST)
 
 
 def _reset(kind, clock, k1):
@@ -131,6 +139,8 @@ def _session(db, shape, raises, base_id):
 
 
 STRICT_INHERITED = [False]
+STRICT_DISCONNECT = [False]
+DISCONNECT_PHASE = 10          # recorder phase of a db.disconnect() step = DISCONNECT_PHASE + its position
 
 
 def _check(kind, db, clock, why, faulted):
@@ -141,13 +151,21 @@ def _check(kind, db, clock, why, faulted):
     pool = db.provider.pool
     # the session that was open when the fork happened, as continued by the child: known region unless STRICT_INHERITED
     region = clock.fork_phase if (clock.mode == 'dbapi' and clock.fork_in_session and not STRICT_INHERITED[0]) else None
+    regions = set() if region is None else {region}
+    # second known region: db.disconnect() called by the child BEFORE the child ever connected (Pool.disconnect has no
+    # pid check: pool.con is still the parent's object and gets closed).  Asserted strictly by fork_then_disconnect_first_*.
+    if not STRICT_DISCONNECT[0]:
+        for ph in sorted({e.phase for e in rec.log if e.phase >= DISCONNECT_PHASE and e.pid == C}):
+            first = min(e.n for e in rec.log if e.phase == ph)
+            if not any(e.pid == C and e.op in ('connect', 'acquire') and e.n < first for e in rec.log):
+                regions.add(ph)
     # F1
     for e in rec.log:
-        if e.pid == C and e.con is not None and e.con.pid_created == P and e.phase != region:
+        if e.pid == C and e.con is not None and e.con.pid_created == P and e.phase not in regions:
             why.append('child called %s on the parent\'s connection c%d (call #%d)' % (e.op, e.con.id, e.n))
     for sp in rec.session_pools:
         for pid, op, cid, phase in sp.journal:
-            if pid == C and sp.pid_created == P and phase != region:
+            if pid == C and sp.pid_created == P and phase not in regions:
                 why.append('child called %s on the parent\'s session pool' % op)
     child_connected = any(e.pid == C and e.op in ('connect', 'acquire') for e in rec.log)
     if clock.forked and child_connected:
@@ -161,7 +179,7 @@ def _check(kind, db, clock, why, faulted):
                 if con.pid_created != P: continue
                 closes = [e for e in rec.log if e.con is con and e.op == 'close']
                 if closes and closes[0].pid == P: continue          # closed by the parent before the fork
-                if closes and closes[0].phase == region: continue   # closed by the inherited session (F1's region)
+                if closes and closes[0].phase in regions: continue   # closed inside a known region (see F1)
                 if not any(c is con and pid == P for c, pid in Pool.forked_connections):
                     why.append('parent connection c%d not retained in forked_connections' % con.id)
         # F3
@@ -193,19 +211,33 @@ def _say(result):
         print('DB-API call journal: %s' % rec.dump())
 
 
-def _scenario(kind, mode, f, s1, s2, s3, raises, k1):
+def _scenario(kind, mode, f, s1, s2, s3, raises, k1, d=0):
     raises = True if raises else False
+    d = 0 if d == 0 else 1 if d == 1 else 2 if d == 2 else 3 if d == 3 else 4
     shapes = []
     for s in (s1, s2, s3):
         shapes.append(0 if s == 0 else 1 if s == 1 else 2 if s == 2 else 3 if s == 3 else 4)
     clock = F.ForkClock(rec, f, mode)
     with F.untraced(rec, clock):
-        r = _scenario_body(kind, clock, shapes, raises, k1)
+        r = _scenario_body(kind, clock, shapes, raises, k1, d)
     _say(r)
     return r
 
 
-def _scenario_body(kind, clock, shapes, raises, k1):
+def _disconnect(db, pos, why):
+    """db.disconnect() between sessions (position `pos` = after session pos), in whichever process is running then."""
+    n0 = rec.n
+    rec.phase = DISCONNECT_PHASE + pos
+    try:
+        db.disconnect()
+    except Exception as e:
+        if not any(ev.faulted for ev in rec.log[n0:]):
+            why.append('disconnect after session %d failed: %s: %s' % (pos, type(e).__name__, e))
+            return False
+    return True
+
+
+def _scenario_body(kind, clock, shapes, raises, k1, d=0):
     COUNT[0] += 1
     why = []
     LAST.clear(); LAST.update(why=why, rec=rec, clock=clock)
@@ -222,6 +254,7 @@ def _scenario_body(kind, clock, shapes, raises, k1):
                 if not any(ev.faulted for ev in rec.log[n0:]):
                     why.append('session %d failed: %s: %s' % (i + 1, type(e).__name__, e))
                     return False
+            if d == i + 1 and not _disconnect(db, d, why): return False
         rec.armed = False
         rec.phase = NSESS + 1
         try:
@@ -229,6 +262,7 @@ def _scenario_body(kind, clock, shapes, raises, k1):
         except Exception as e:
             why.append('final session failed: %s: %s' % (type(e).__name__, e))
             return False
+        if d == NSESS + 1 and not _disconnect(db, d, why): return False
         if rec.n > NMAX:
             why.append('harness bound: more than NMAX calls')
             return False
@@ -244,165 +278,45 @@ def explain(fn, **kw):
 
 HARNESSES = []
 
+# One explicit function per family x pool (CrossHair reads the conditions from the source text).
 
-def fork_at_getpid_file(f: int, s1: int, s2: int, s3: int, raises: bool) -> bool:
+
+def fork_at_getpid_file(f: int, s1: int, s2: int, s3: int, raises: bool, d: int) -> bool:
     """
     pre: 0 <= f <= 8
     pre: 0 <= s1 <= 4 and 0 <= s2 <= 4 and 0 <= s3 <= 4
+    pre: 0 <= d <= 4
+    pre: FULL or d == 0 or s3 == 2
     post: _
     """
-    return ok(_scenario('file', 'getpid', f, s1, s2, s3, raises, 0))
+    return ok(_scenario('file', 'getpid', f, s1, s2, s3, raises, 0, d))
 HARNESSES.append('fork_at_getpid_file')
 
 
-def fork_mid_session_file(f: int, s1: int, s2: int, raises: bool) -> bool:
+def fork_mid_session_file(f: int, s1: int, s2: int, raises: bool, d: int) -> bool:
     """
     pre: 0 <= f <= NMAX
     pre: 0 <= s1 <= 4 and 0 <= s2 <= 4
+    pre: 0 <= d <= 4
+    pre: FULL or d == 0 or (s2 == 2 and not raises)
     post: _
     """
-    return ok(_scenario('file', 'dbapi', f, s1, s2, 2, raises, 0))
+    return ok(_scenario('file', 'dbapi', f, s1, s2, 2, raises, 0, d))
 HARNESSES.append('fork_mid_session_file')
 
 
-def single_fault_file(f: int, k1: int, s1: int, s2: int) -> bool:
+def single_fault_file(f: int, k1: int, s1: int, s2: int, d: int) -> bool:
     """
     pre: 0 <= f <= 8
     pre: 0 <= k1 <= NMAX
     pre: 0 <= s1 <= 4 and 0 <= s2 <= 4
     pre: FULL or s2 == 2
+    pre: 0 <= d <= 4
+    pre: FULL or d == 0 or s1 == 2
     post: _
     """
-    return ok(_scenario('file', 'getpid', f, s1, s2, 2, False, k1))
+    return ok(_scenario('file', 'getpid', f, s1, s2, 2, False, k1, d))
 HARNESSES.append('single_fault_file')
-
-
-def fork_at_getpid_mem(f: int, s1: int, s2: int, s3: int, raises: bool) -> bool:
-    """
-    pre: 0 <= f <= 8
-    pre: 0 <= s1 <= 4 and 0 <= s2 <= 4 and 0 <= s3 <= 4
-    post: _
-    """
-    return ok(_scenario('mem', 'getpid', f, s1, s2, s3, raises, 0))
-HARNESSES.append('fork_at_getpid_mem')
-
-
-def fork_mid_session_mem(f: int, s1: int, s2: int, raises: bool) -> bool:
-    """
-    pre: 0 <= f <= NMAX
-    pre: 0 <= s1 <= 4 and 0 <= s2 <= 4
-    post: _
-    """
-    return ok(_scenario('mem', 'dbapi', f, s1, s2, 2, raises, 0))
-HARNESSES.append('fork_mid_session_mem')
-
-
-def single_fault_mem(f: int, k1: int, s1: int, s2: int) -> bool:
-    """
-    pre: 0 <= f <= 8
-    pre: 0 <= k1 <= NMAX
-    pre: 0 <= s1 <= 4 and 0 <= s2 <= 4
-    pre: FULL or s2 == 2
-    post: _
-    """
-    return ok(_scenario('mem', 'getpid', f, s1, s2, 2, False, k1))
-HARNESSES.append('single_fault_mem')
-
-
-def fork_at_getpid_pg(f: int, s1: int, s2: int, s3: int, raises: bool) -> bool:
-    """
-    pre: 0 <= f <= 8
-    pre: 0 <= s1 <= 4 and 0 <= s2 <= 4 and 0 <= s3 <= 4
-    post: _
-    """
-    return ok(_scenario('pg', 'getpid', f, s1, s2, s3, raises, 0))
-HARNESSES.append('fork_at_getpid_pg')
-
-
-def fork_mid_session_pg(f: int, s1: int, s2: int, raises: bool) -> bool:
-    """
-    pre: 0 <= f <= NMAX
-    pre: 0 <= s1 <= 4 and 0 <= s2 <= 4
-    post: _
-    """
-    return ok(_scenario('pg', 'dbapi', f, s1, s2, 2, raises, 0))
-HARNESSES.append('fork_mid_session_pg')
-
-
-def single_fault_pg(f: int, k1: int, s1: int, s2: int) -> bool:
-    """
-    pre: 0 <= f <= 8
-    pre: 0 <= k1 <= NMAX
-    pre: 0 <= s1 <= 4 and 0 <= s2 <= 4
-    pre: FULL or s2 == 2
-    post: _
-    """
-    return ok(_scenario('pg', 'getpid', f, s1, s2, 2, False, k1))
-HARNESSES.append('single_fault_pg')
-
-
-def fork_at_getpid_my(f: int, s1: int, s2: int, s3: int, raises: bool) -> bool:
-    """
-    pre: 0 <= f <= 8
-    pre: 0 <= s1 <= 4 and 0 <= s2 <= 4 and 0 <= s3 <= 4
-    post: _
-    """
-    return ok(_scenario('my', 'getpid', f, s1, s2, s3, raises, 0))
-HARNESSES.append('fork_at_getpid_my')
-
-
-def fork_mid_session_my(f: int, s1: int, s2: int, raises: bool) -> bool:
-    """
-    pre: 0 <= f <= NMAX
-    pre: 0 <= s1 <= 4 and 0 <= s2 <= 4
-    post: _
-    """
-    return ok(_scenario('my', 'dbapi', f, s1, s2, 2, raises, 0))
-HARNESSES.append('fork_mid_session_my')
-
-
-def single_fault_my(f: int, k1: int, s1: int, s2: int) -> bool:
-    """
-    pre: 0 <= f <= 8
-    pre: 0 <= k1 <= NMAX
-    pre: 0 <= s1 <= 4 and 0 <= s2 <= 4
-    pre: FULL or s2 == 2
-    post: _
-    """
-    return ok(_scenario('my', 'getpid', f, s1, s2, 2, False, k1))
-HARNESSES.append('single_fault_my')
-
-
-def fork_at_getpid_ora(f: int, s1: int, s2: int, s3: int, raises: bool) -> bool:
-    """
-    pre: 0 <= f <= 8
-    pre: 0 <= s1 <= 4 and 0 <= s2 <= 4 and 0 <= s3 <= 4
-    post: _
-    """
-    return ok(_scenario('ora', 'getpid', f, s1, s2, s3, raises, 0))
-HARNESSES.append('fork_at_getpid_ora')
-
-
-def fork_mid_session_ora(f: int, s1: int, s2: int, raises: bool) -> bool:
-    """
-    pre: 0 <= f <= NMAX
-    pre: 0 <= s1 <= 4 and 0 <= s2 <= 4
-    post: _
-    """
-    return ok(_scenario('ora', 'dbapi', f, s1, s2, 2, raises, 0))
-HARNESSES.append('fork_mid_session_ora')
-
-
-def single_fault_ora(f: int, k1: int, s1: int, s2: int) -> bool:
-    """
-    pre: 0 <= f <= 8
-    pre: 0 <= k1 <= NMAX
-    pre: 0 <= s1 <= 4 and 0 <= s2 <= 4
-    pre: FULL or s2 == 2
-    post: _
-    """
-    return ok(_scenario('ora', 'getpid', f, s1, s2, 2, False, k1))
-HARNESSES.append('single_fault_ora')
 
 
 def fork_inherited_session_file(f: int, s1: int, s2: int, raises: bool) -> bool:
@@ -419,6 +333,59 @@ def fork_inherited_session_file(f: int, s1: int, s2: int, raises: bool) -> bool:
 HARNESSES.append('fork_inherited_session_file')
 
 
+def fork_then_disconnect_first_file(f: int, s1: int, s2: int, d: int) -> bool:
+    """
+    pre: 0 <= f <= NMAX
+    pre: 0 <= s1 <= 4 and 0 <= s2 <= 4
+    pre: 1 <= d <= 4
+    post: _
+    """
+    STRICT_DISCONNECT[0] = True
+    try:
+        return ok(_scenario('file', 'dbapi', f, s1, s2, 2, False, 0, d))
+    finally:
+        STRICT_DISCONNECT[0] = False
+HARNESSES.append('fork_then_disconnect_first_file')
+
+
+def fork_at_getpid_mem(f: int, s1: int, s2: int, s3: int, raises: bool, d: int) -> bool:
+    """
+    pre: 0 <= f <= 8
+    pre: 0 <= s1 <= 4 and 0 <= s2 <= 4 and 0 <= s3 <= 4
+    pre: 0 <= d <= 4
+    pre: FULL or d == 0 or s3 == 2
+    post: _
+    """
+    return ok(_scenario('mem', 'getpid', f, s1, s2, s3, raises, 0, d))
+HARNESSES.append('fork_at_getpid_mem')
+
+
+def fork_mid_session_mem(f: int, s1: int, s2: int, raises: bool, d: int) -> bool:
+    """
+    pre: 0 <= f <= NMAX
+    pre: 0 <= s1 <= 4 and 0 <= s2 <= 4
+    pre: 0 <= d <= 4
+    pre: FULL or d == 0 or (s2 == 2 and not raises)
+    post: _
+    """
+    return ok(_scenario('mem', 'dbapi', f, s1, s2, 2, raises, 0, d))
+HARNESSES.append('fork_mid_session_mem')
+
+
+def single_fault_mem(f: int, k1: int, s1: int, s2: int, d: int) -> bool:
+    """
+    pre: 0 <= f <= 8
+    pre: 0 <= k1 <= NMAX
+    pre: 0 <= s1 <= 4 and 0 <= s2 <= 4
+    pre: FULL or s2 == 2
+    pre: 0 <= d <= 4
+    pre: FULL or d == 0 or s1 == 2
+    post: _
+    """
+    return ok(_scenario('mem', 'getpid', f, s1, s2, 2, False, k1, d))
+HARNESSES.append('single_fault_mem')
+
+
 def fork_inherited_session_mem(f: int, s1: int, s2: int, raises: bool) -> bool:
     """
     pre: 0 <= f <= NMAX
@@ -431,6 +398,59 @@ def fork_inherited_session_mem(f: int, s1: int, s2: int, raises: bool) -> bool:
     finally:
         STRICT_INHERITED[0] = False
 HARNESSES.append('fork_inherited_session_mem')
+
+
+def fork_then_disconnect_first_mem(f: int, s1: int, s2: int, d: int) -> bool:
+    """
+    pre: 0 <= f <= NMAX
+    pre: 0 <= s1 <= 4 and 0 <= s2 <= 4
+    pre: 1 <= d <= 4
+    post: _
+    """
+    STRICT_DISCONNECT[0] = True
+    try:
+        return ok(_scenario('mem', 'dbapi', f, s1, s2, 2, False, 0, d))
+    finally:
+        STRICT_DISCONNECT[0] = False
+HARNESSES.append('fork_then_disconnect_first_mem')
+
+
+def fork_at_getpid_pg(f: int, s1: int, s2: int, s3: int, raises: bool, d: int) -> bool:
+    """
+    pre: 0 <= f <= 8
+    pre: 0 <= s1 <= 4 and 0 <= s2 <= 4 and 0 <= s3 <= 4
+    pre: 0 <= d <= 4
+    pre: FULL or d == 0 or s3 == 2
+    post: _
+    """
+    return ok(_scenario('pg', 'getpid', f, s1, s2, s3, raises, 0, d))
+HARNESSES.append('fork_at_getpid_pg')
+
+
+def fork_mid_session_pg(f: int, s1: int, s2: int, raises: bool, d: int) -> bool:
+    """
+    pre: 0 <= f <= NMAX
+    pre: 0 <= s1 <= 4 and 0 <= s2 <= 4
+    pre: 0 <= d <= 4
+    pre: FULL or d == 0 or (s2 == 2 and not raises)
+    post: _
+    """
+    return ok(_scenario('pg', 'dbapi', f, s1, s2, 2, raises, 0, d))
+HARNESSES.append('fork_mid_session_pg')
+
+
+def single_fault_pg(f: int, k1: int, s1: int, s2: int, d: int) -> bool:
+    """
+    pre: 0 <= f <= 8
+    pre: 0 <= k1 <= NMAX
+    pre: 0 <= s1 <= 4 and 0 <= s2 <= 4
+    pre: FULL or s2 == 2
+    pre: 0 <= d <= 4
+    pre: FULL or d == 0 or s1 == 2
+    post: _
+    """
+    return ok(_scenario('pg', 'getpid', f, s1, s2, 2, False, k1, d))
+HARNESSES.append('single_fault_pg')
 
 
 def fork_inherited_session_pg(f: int, s1: int, s2: int, raises: bool) -> bool:
@@ -447,6 +467,59 @@ def fork_inherited_session_pg(f: int, s1: int, s2: int, raises: bool) -> bool:
 HARNESSES.append('fork_inherited_session_pg')
 
 
+def fork_then_disconnect_first_pg(f: int, s1: int, s2: int, d: int) -> bool:
+    """
+    pre: 0 <= f <= NMAX
+    pre: 0 <= s1 <= 4 and 0 <= s2 <= 4
+    pre: 1 <= d <= 4
+    post: _
+    """
+    STRICT_DISCONNECT[0] = True
+    try:
+        return ok(_scenario('pg', 'dbapi', f, s1, s2, 2, False, 0, d))
+    finally:
+        STRICT_DISCONNECT[0] = False
+HARNESSES.append('fork_then_disconnect_first_pg')
+
+
+def fork_at_getpid_my(f: int, s1: int, s2: int, s3: int, raises: bool, d: int) -> bool:
+    """
+    pre: 0 <= f <= 8
+    pre: 0 <= s1 <= 4 and 0 <= s2 <= 4 and 0 <= s3 <= 4
+    pre: 0 <= d <= 4
+    pre: FULL or d == 0 or s3 == 2
+    post: _
+    """
+    return ok(_scenario('my', 'getpid', f, s1, s2, s3, raises, 0, d))
+HARNESSES.append('fork_at_getpid_my')
+
+
+def fork_mid_session_my(f: int, s1: int, s2: int, raises: bool, d: int) -> bool:
+    """
+    pre: 0 <= f <= NMAX
+    pre: 0 <= s1 <= 4 and 0 <= s2 <= 4
+    pre: 0 <= d <= 4
+    pre: FULL or d == 0 or (s2 == 2 and not raises)
+    post: _
+    """
+    return ok(_scenario('my', 'dbapi', f, s1, s2, 2, raises, 0, d))
+HARNESSES.append('fork_mid_session_my')
+
+
+def single_fault_my(f: int, k1: int, s1: int, s2: int, d: int) -> bool:
+    """
+    pre: 0 <= f <= 8
+    pre: 0 <= k1 <= NMAX
+    pre: 0 <= s1 <= 4 and 0 <= s2 <= 4
+    pre: FULL or s2 == 2
+    pre: 0 <= d <= 4
+    pre: FULL or d == 0 or s1 == 2
+    post: _
+    """
+    return ok(_scenario('my', 'getpid', f, s1, s2, 2, False, k1, d))
+HARNESSES.append('single_fault_my')
+
+
 def fork_inherited_session_my(f: int, s1: int, s2: int, raises: bool) -> bool:
     """
     pre: 0 <= f <= NMAX
@@ -461,6 +534,59 @@ def fork_inherited_session_my(f: int, s1: int, s2: int, raises: bool) -> bool:
 HARNESSES.append('fork_inherited_session_my')
 
 
+def fork_then_disconnect_first_my(f: int, s1: int, s2: int, d: int) -> bool:
+    """
+    pre: 0 <= f <= NMAX
+    pre: 0 <= s1 <= 4 and 0 <= s2 <= 4
+    pre: 1 <= d <= 4
+    post: _
+    """
+    STRICT_DISCONNECT[0] = True
+    try:
+        return ok(_scenario('my', 'dbapi', f, s1, s2, 2, False, 0, d))
+    finally:
+        STRICT_DISCONNECT[0] = False
+HARNESSES.append('fork_then_disconnect_first_my')
+
+
+def fork_at_getpid_ora(f: int, s1: int, s2: int, s3: int, raises: bool, d: int) -> bool:
+    """
+    pre: 0 <= f <= 8
+    pre: 0 <= s1 <= 4 and 0 <= s2 <= 4 and 0 <= s3 <= 4
+    pre: 0 <= d <= 4
+    pre: FULL or d == 0 or s3 == 2
+    post: _
+    """
+    return ok(_scenario('ora', 'getpid', f, s1, s2, s3, raises, 0, d))
+HARNESSES.append('fork_at_getpid_ora')
+
+
+def fork_mid_session_ora(f: int, s1: int, s2: int, raises: bool, d: int) -> bool:
+    """
+    pre: 0 <= f <= NMAX
+    pre: 0 <= s1 <= 4 and 0 <= s2 <= 4
+    pre: 0 <= d <= 4
+    pre: FULL or d == 0 or (s2 == 2 and not raises)
+    post: _
+    """
+    return ok(_scenario('ora', 'dbapi', f, s1, s2, 2, raises, 0, d))
+HARNESSES.append('fork_mid_session_ora')
+
+
+def single_fault_ora(f: int, k1: int, s1: int, s2: int, d: int) -> bool:
+    """
+    pre: 0 <= f <= 8
+    pre: 0 <= k1 <= NMAX
+    pre: 0 <= s1 <= 4 and 0 <= s2 <= 4
+    pre: FULL or s2 == 2
+    pre: 0 <= d <= 4
+    pre: FULL or d == 0 or s1 == 2
+    post: _
+    """
+    return ok(_scenario('ora', 'getpid', f, s1, s2, 2, False, k1, d))
+HARNESSES.append('single_fault_ora')
+
+
 def fork_inherited_session_ora(f: int, s1: int, s2: int, raises: bool) -> bool:
     """
     pre: 0 <= f <= NMAX
@@ -473,3 +599,18 @@ def fork_inherited_session_ora(f: int, s1: int, s2: int, raises: bool) -> bool:
     finally:
         STRICT_INHERITED[0] = False
 HARNESSES.append('fork_inherited_session_ora')
+
+
+def fork_then_disconnect_first_ora(f: int, s1: int, s2: int, d: int) -> bool:
+    """
+    pre: 0 <= f <= NMAX
+    pre: 0 <= s1 <= 4 and 0 <= s2 <= 4
+    pre: 1 <= d <= 4
+    post: _
+    """
+    STRICT_DISCONNECT[0] = True
+    try:
+        return ok(_scenario('ora', 'dbapi', f, s1, s2, 2, False, 0, d))
+    finally:
+        STRICT_DISCONNECT[0] = False
+HARNESSES.append('fork_then_disconnect_first_ora')
